@@ -173,6 +173,15 @@ def stored_hash(p):
     with SgzReader(p) as r:
         hx = r.get_source_data_hash()
     raw = open(p, 'rb').read(1024)[960:980]
+    # the reported hash is the same whichever way the reader was given the file: a blob client, an open file handle
+    for how, handle in (('blob client', CountingBlob(p)), ('file handle', open(p, 'rb'))):
+        try:
+            with SgzReader(handle) as r2:
+                h2 = r2.get_source_data_hash()
+        finally:
+            handle.close()
+        if h2 != hx:
+            R.violation('oracle', {'path': os.path.basename(p), 'reader given': how}, f'get_source_data_hash() through a {how} is {h2}, through the path {hx}')
     return hx, raw
 
 
